@@ -19,11 +19,17 @@ RootsList == UNION {{Case("clean", g, t, "list", With(Priv(BaseV(g, 1), 1), t, L
 ListInSingle == UNION {{Case("clean", g, t, "list-in-single", With(Priv(BaseV(g, 1), 1), t, ListOf(<<Leaf(7), I1, Leaf(8)>>))),
                         Case("clean", g, t, "iri-first", With(Priv(BaseV(g, 1), 1), t, ListOf(<<I3, Leaf(7), I1, Leaf(8)>>)))}
                        : g \in {"Object", "Activity", "Actor", "Question", "Place"}, t \in {"attachment", "icon", "image", "context", "generator", "attributedTo", "preview", "audience", "tag"}}
+\* members that share an identity: two id-less embedded objects (anonymous attachments, mentions), and two objects with the SAME id
+Idless(n) == [Leaf(n) EXCEPT !.p = Restrict(Leaf(n).p, DOMAIN Leaf(n).p \ {"id"})]
+SameIdAs(n, m) == With(Leaf(m), "id", Leaf(n).p.id)
+Twins == UNION {{Case("clean", g, t, "idless-twins", With(Priv(BaseV(g, 1), 1), t, ListOf(<<Idless(7), Idless(8), I1>>))),
+                 Case("clean", g, t, "same-id-twins", With(Priv(BaseV(g, 1), 1), t, ListOf(<<Leaf(7), I1, SameIdAs(7, 8)>>)))}
+                : g \in {"Object", "Activity", "Actor"}, t \in {"attachment", "tag", "audience"}}
 ValueEmbedded == {Case("clean", g, "attachment", "by-value", With(Priv(BaseV(g, 1), 1), "attachment", ByValue(With(BaseV("Object", 60), "name", Nlv(<<LR(NilTag, "v")>>))))) : g \in {"Object", "Activity"}}
 Deep == {Case("clean", "Activity", "object", "depth3",
               With(Priv(BaseV("Activity", 1), 1), "object", With(Priv(BaseV("Activity", 2), 2), "object", With(Leaf(3), "preview", With(Leaf(4), "replies", Leaf(5))))))}
 TopList == {Case("clean", "ItemCollection", "top", "list", ListOf(<<Leaf(1), I1, Priv(BaseV("Activity", 2), 2)>>))}
-AllClean == Roots1OK \cup RootsList \cup ListInSingle \cup ValueEmbedded \cup Deep
+AllClean == Roots1OK \cup RootsList \cup ListInSingle \cup ValueEmbedded \cup Deep \cup Twins
 GenInit == orig = NilItem /\ val = NilItem /\ phase = "gen"
 GenNext == FALSE /\ UNCHANGED vars
 ASSUME ndJsonSerialize("c11_cases.ndjson", SetToSeq(AllClean))
